@@ -200,6 +200,9 @@ def _worker(args):
         if k % 3 == 0:  # labels of several types in one hypergraph ("whatever its labels")
             gm = Gamma("mixed", "int")
             out += observe(f"s{base_ + k}mx", obscore.realise(j, gm, rng, shuffle=True), gm, False, rng, plt)
+        if k % 3 == 1:  # labels that are sequences themselves (grid coordinates)
+            gm = Gamma("tuple", "int")
+            out += observe(f"s{base_ + k}tp", obscore.realise(j, gm, rng, shuffle=True), gm, False, rng, plt)
         S = xgi.SimplicialComplex()
         S.add_nodes_from([g.node(n) for n in j["nodes"]])
         with warnings.catch_warnings():
